@@ -255,4 +255,29 @@ MUTANTS = {
         checks=["C15"],
         edits=[(P, "    def __str__(self) -> str:\n        text = f\"{self.file}:{self.line}\"", "    def __reduce__(self):\n        return (Coord, (self.file, self.line))\n\n    def __str__(self) -> str:\n        text = f\"{self.file}:{self.line}\"")],
     ),
+    "C19-missing-typedef": dict(
+        what="uint32_t removed from _fake_typedefs.h although xcb typedefs further down use it",
+        checks=["C19"],
+        edits=[("utils/fake_libc_include/_fake_typedefs.h", "typedef int uint32_t;\n", "")],
+    ),
+    "C19-split-string-args": dict(
+        what="a cpp_args string is split on blanks",
+        checks=["C19"],
+        edits=[("pycparser/__init__.py", "        path_list += [cpp_args]", "        path_list += cpp_args.split()")],
+    ),
+    "C19-gnu-attribute": dict(
+        what="a GNU attribute added to one fake header",
+        checks=["C19"],
+        edits=[("utils/fake_libc_include/fmtmsg.h", '#include "_fake_typedefs.h"', '#include "_fake_typedefs.h"\nextern int fmtmsg_x(long) __attribute__((noreturn));')],
+    ),
+    "C19-list-args-joined": dict(
+        what="a cpp_args list is joined into one argument",
+        checks=["C19"],
+        edits=[("pycparser/__init__.py", "        path_list += cpp_args\n", "        path_list += [\" \".join(cpp_args)]\n")],
+    ),
+    "C19-filename-lost": dict(
+        what="parse_file parses the text without passing the file name",
+        checks=["C19"],
+        edits=[("pycparser/__init__.py", "    return parser.parse(text, filename)", "    return parser.parse(text)")],
+    ),
 }
